@@ -39,6 +39,10 @@ func VH_C13_trace_index_arith() {
 	vrt.SymbolicTZ()
 	from, to, ts := vrt.Int64("from-seconds"), vrt.Int64("to-seconds"), vrt.Int64("span-start-seconds")
 	vrt.Assume(from >= 1000000000)
+	vrt.Assume(from < 4000000000) // implied; stated for the engine's interval reasoning
+	vrt.Assume(ts >= 1000000000)
+	vrt.Assume(ts < 4000000000)
+	vrt.Assume(to >= 1000000000)
 	vrt.Assume(to < 4000000000)
 	vrt.Assume(from <= ts)
 	vrt.Assume(ts < to)
